@@ -14,7 +14,7 @@ import (
 func init() {
 	register(&Prop{
 		ID:          "C17",
-		Explanation: "PARTIAL claim — decides four structural conditions of faithful proxying, not routing or byte fidelity as behaviour: (1) stores into the request line, host and body of an *http.Request (Method, URL, RequestURI, Host, Body, and fields of the URL reached from a request) occur, in production code, only in pkg/upstream (rewrite, director, unix round-tripper) or on values that are clones/new requests; (2) between the outer handler and the upstream no production code reachable from the pass path parses or consumes the body (ParseForm/FormValue/PostFormValue/ParseMultipartForm/MultipartReader/Body reads) outside the reviewed login endpoints; (3) the registration-order comparator puts a rewrite rule before a plain one only when the other has no rewrite target and otherwise orders by longer path, on every true-returning path; (4) the rewrite query merge only appends rewritten values to the client's query (url.Values.Add), never overwrites or replaces entries. Added during the build: (5) every ResponseWriter wrapper of the module relays WriteHeader/Write to the wrapped writer exactly once with the caller's argument on every path; (6) the upstream-host director is installed only for an explicit pass-host-header=false and is the only writer of Request.Host in pkg/upstream (one reviewed exception: the unix round tripper fills an empty Host); (7) the director calls the original director and then sets URL.Opaque to the same request's RequestURI and clears RawQuery, every reverse proxy returned has that director installed, the proxy's own router is NewRouter().UseEncodedPath() and the upstream router uses encoded-path matching exactly when proxyRawPath is set. Round 3: flattenHeaders writes back the join of exactly the values it ranged over (8).",
+		Explanation: "PARTIAL claim — decides four structural conditions of faithful proxying, not routing or byte fidelity as behaviour: (1) stores into the request line, host and body of an *http.Request (Method, URL, RequestURI, Host, Body, and fields of the URL reached from a request) occur, in production code, only in pkg/upstream (rewrite, director, unix round-tripper) or on values that are clones/new requests; (2) between the outer handler and the upstream no production code reachable from the pass path parses or consumes the body (ParseForm/FormValue/PostFormValue/ParseMultipartForm/MultipartReader/Body reads) outside the reviewed login endpoints; (3) the registration-order comparator puts a rewrite rule before a plain one only when the other has no rewrite target and otherwise orders by longer path, on every true-returning path; (4) the rewrite query merge only appends rewritten values to the client's query (url.Values.Add), never overwrites or replaces entries. Added during the build: (5) every ResponseWriter wrapper of the module relays WriteHeader/Write to the wrapped writer exactly once with the caller's argument on every path; (6) the upstream-host director is installed only for an explicit pass-host-header=false and is the only writer of Request.Host in pkg/upstream (one reviewed exception: the unix round tripper fills an empty Host); (7) the director calls the original director and then sets URL.Opaque to the same request's RequestURI and clears RawQuery, every reverse proxy returned has that director installed, the proxy's own router is NewRouter().UseEncodedPath() and the upstream router uses encoded-path matching exactly when proxyRawPath is set. Round 3: flattenHeaders writes back the join of exactly the values it ranged over (8). Round 4: the structured configuration's upstreamConfig reaches Options.UpstreamServers as one value (proxyRawPath included) and a legacy --upstream is routed under the decoded path (or fragment) of its URL (R9).",
 		NotDecided:  "longest-prefix routing of gorilla/mux over all paths, percent-encoding fidelity through RequestURI/URL.Path/RawPath, response relay by httputil.ReverseProxy, header pass-through: behaviour of third-party routers over all inputs.",
 		Run:         runC17,
 	})
@@ -32,6 +32,8 @@ func runC17(c *Ctx) {
 	runC17R6(c, "R6-pass-host-default")
 	r.Rule("R7-request-target-verbatim", "the director sends RequestURI verbatim after the original director, every reverse proxy gets it, routers match on the encoded path (upstream router iff proxyRawPath)", 4)
 	runC17R7(c, "R7-request-target-verbatim")
+	r.Rule("R9-upstream-config-verbatim", "the structured configuration's upstreamConfig reaches Options.UpstreamServers as a whole (proxyRawPath included); a legacy --upstream is routed under the decoded path of its URL", 2)
+	runC17R9(c, "R9-upstream-config-verbatim")
 	r.Rule("R8-flatten-lossless", "flattenHeaders writes back the join of exactly the values it ranged over", 1)
 	runC17R8(c, "R8-flatten-lossless")
 
@@ -654,5 +656,76 @@ func runC17R8(c *Ctx, rule string) {
 	}
 	if n == 0 {
 		c.R.Unknown(rule, "flatten-lossless|none", c.P.Pos(fn.Pos()), "flattenHeaders writes nothing back")
+	}
+}
+
+// runC17R9: what the router is built from is what the operator wrote. (a) MergeInto assigns the alpha
+// UpstreamConfig to Options.UpstreamServers as one value: copying members one by one silently drops proxyRawPath,
+// and encoded paths are then cleaned and routed on their decoded form. (b) The legacy converter registers each
+// upstream under url.URL.Path — the decoded path, which is what the router matches request paths against (without
+// proxyRawPath); the escaped spelling never matches a request.
+func runC17R9(c *Ctx, rule string) {
+	runAlphaMergeVerbatim(c, rule, "UpstreamServers", "UpstreamConfig", "alpha-upstreams-whole", "members of the structured upstreamConfig (proxyRawPath) do not reach the options, so raw-path proxying configured in the YAML is silently off")
+	conv := c.Fn(rule, "(*pkg/apis/options.LegacyUpstreams).convert")
+	pathF := c.Field(rule, "pkg/apis/options.Upstream.Path")
+	if conv == nil || pathF == nil {
+		return
+	}
+	var decoded func(v ssa.Value, depth int) (bool, string)
+	decoded = func(v ssa.Value, depth int) (bool, string) {
+		v = unwrap0(v)
+		if depth > 4 {
+			return false, "a derivation too deep to decide"
+		}
+		switch x := v.(type) {
+		case *ssa.Const:
+			return true, ""
+		case *ssa.Phi:
+			for _, e := range x.Edges {
+				if ok, why := decoded(e, depth+1); !ok {
+					return false, why
+				}
+			}
+			return true, ""
+		case *ssa.UnOp:
+			if fa, ok := x.X.(*ssa.FieldAddr); ok && x.Op == token.MUL {
+				f := walk.FieldOf(fa.X.Type(), fa.Field)
+				if f != nil && (f.Name() == "Path" || f.Name() == "Fragment") && strings.HasSuffix(fa.X.Type().String(), "net/url.URL") {
+					return true, "" // both are the decoded forms (file upstreams are served under the URL's fragment)
+				}
+				if f != nil {
+					return false, "field " + f.Name()
+				}
+			}
+			if al, ok := x.X.(*ssa.Alloc); ok && x.Op == token.MUL {
+				for _, st := range storesTo(al) {
+					if ok, why := decoded(st.Val, depth+1); !ok {
+						return false, why
+					}
+				}
+				return true, ""
+			}
+		case *ssa.Call:
+			if sc := x.Call.StaticCallee(); sc != nil {
+				return false, "the result of " + sc.Name() + "()"
+			}
+		}
+		return false, "an unrecognised derivation"
+	}
+	n := 0
+	for _, ref := range c.fieldRefs(pathF) {
+		if ref.Store == nil || ref.Fn != conv {
+			continue
+		}
+		n++
+		key := "legacy-upstream-path|" + fnKey(conv)
+		if ok, why := decoded(ref.Store.Val, 0); ok {
+			c.ok(rule, key, ref.In, "Upstream.Path is the parsed URL's decoded Path / Fragment, or a constant")
+		} else {
+			c.R.Bad(rule, key, c.pos(ref.In), "a legacy upstream is registered under "+why+" instead of the decoded path of its URL: the router matches decoded request paths, so an upstream whose path needs escaping (a space, a non-ASCII letter) never matches and its requests go to the catch-all upstream", nil, nil)
+		}
+	}
+	if n == 0 {
+		c.R.Unknown(rule, "legacy-upstream-path|none", c.P.Pos(conv.Pos()), "the legacy converter does not set Upstream.Path")
 	}
 }
